@@ -219,7 +219,9 @@ def _make_variant(scratch, ob, d, marker, lock, key, loops, renames, only, wide,
         injected.append("W pass: %d wide string literals rewritten to array compound literals (CBMC wide-literal size bug)" % n)
     S.verify_undo(tmp)
     shutil.move(tmp, d)
-    json.dump(injected, open(marker, "w"))
+    with open(marker + ".tmp", "w") as fh_:      # atomically: a waiting thread must never see an empty marker file
+        json.dump(injected, fh_)
+    os.rename(marker + ".tmp", marker)
     os.rmdir(lock)
     return d, injected
 
